@@ -6,6 +6,7 @@ import (
 	"fmt"
 	"strings"
 	"testing"
+	"time"
 
 	"github.com/dapr/kit/concurrency/lock"
 	"pgregory.net/rapid"
@@ -109,6 +110,17 @@ func runCtxLock(t *testing.T, c ctxCase) (out ctxOutcome, err error) {
 					continue
 				}
 				ctx, cancel := context.WithCancel(context.Background())
+				// contexts end in different ways (plain cancel, cancel with a cause, an expired deadline): the lock
+				// must only look at Done
+				switch (n + w) % 3 {
+				case 1:
+					c2, cc := context.WithCancelCause(context.Background())
+					ctx, cancel = c2, func() { cc(errLockCause) }
+				case 2:
+					if o.Pre {
+						ctx, cancel = context.WithDeadline(context.Background(), time.Now().Add(-time.Second))
+					}
+				}
 				s.cancel = cancel
 				if o.Pre {
 					cancel()
@@ -266,6 +278,8 @@ func runCtxLock(t *testing.T, c ctxCase) (out ctxOutcome, err error) {
 	}
 	return out, berr
 }
+
+var errLockCause = errors.New("verif: waiter gave up with a cause")
 
 func TestContextLock(t *testing.T) {
 	sec := vk.Sec("ContextLock")
